@@ -411,7 +411,7 @@ struct V : RecursiveASTVisitor<V> {
     return true;
   }
   bool VisitEnumDecl(EnumDecl *ED) {
-    if (!ED->isThisDeclarationADefinition()) return true;
+    if (!ED->isThisDeclarationADefinition() || ED->getDeclContext()->isDependentContext()) return true;
     std::string f = X.file(ED->getLocation());
     if (!repoFile(f) || vendored(f)) return true;
     std::string key = "enum " + ED->getQualifiedNameAsString() + "@" + X.locs(ED->getLocation());
